@@ -19,6 +19,7 @@ import Driver.Ops.Sink
 import Driver.Ops.Snappy
 import Driver.Ops.Stats
 import Driver.Ops.Thrift
+import Driver.Ops.ThriftPageIndex
 import Driver.Gen.ParDict
 import Driver.Gen.RefFiles
 /-
@@ -47,7 +48,8 @@ def handlers : List (Line → Option Verdict) :=
     Driver.Ops.Sink.handle,
     Driver.Ops.Snappy.handle,
     Driver.Ops.Stats.handle,
-    Driver.Ops.Thrift.handle ]
+    Driver.Ops.Thrift.handle,
+    Driver.Ops.ThriftPageIndex.handle ]
 
 def stepLine (s : String) : String :=
   match parseLine s with
